@@ -12,7 +12,9 @@ Inductive mutation :=
 | MTrunc (f k : N)                       (* file f cut to its first k bytes *)
 | MFlip (f byte bit : N)                 (* one bit of one byte of file f inverted *)
 | MPatch (f off : N) (data : string)     (* bytes overwritten from offset off (clipped) *)
-| MDrop (f : N).                         (* file f removed from the directory *)
+| MDrop (f : N)                          (* file f removed from the directory *)
+| MFill (f off len v : N)                (* len bytes from off set to v (clipped) *)
+| MAppend (f n v : N).                   (* n bytes of value v appended after the end *)
 
 Record ent := E { en_ts : N; en_data : string; en_crc : N; en_poison : bool }.
 Inductive rent := RI (i : N) | RE (ts : N) (data : string) (crc : N).
@@ -21,7 +23,11 @@ Record written := W { w_file : N; w_seq : N; w_rot : bool; w_ents : list N }.
 Inductive probe :=
 | PRecover (ms : list mutation) (r : option (list rent))
 | PAfter (ms : list mutation) (T : N) (r : option (list N))
-| PTrunc (ms : list mutation) (extra : option N) (T : N) (r : option (N * list N)).
+| PTrunc (ms : list mutation) (extra : option N) (T : N) (r : option (N * list N))
+(* WalReader on file f alone: header sequence, entries(), entries_after(T); None = open failed *)
+| PReader (ms : list mutation) (f : N) (T : N) (r : option (N * list rent * list rent))
+(* a fresh rotator on the directory appends entry [extra] (to a new file max+1), then recover_all *)
+| PRestart (ms : list mutation) (extra : option N) (r : option (list rent)).
 
 Record case := K { k_files : list (string * string); k_ents : list ent;
                    k_written : list written; k_probes : list probe }.
@@ -50,6 +56,8 @@ Definition mutate1 (fs : list (bytes * option bytes)) (m : mutation) : list (byt
         if b <? lenN d then upd (N.to_nat b) (fun y => flip_bit y i) d else d) (snd x))) fs
   | MPatch f o p => upd (N.to_nat f) (fun x => (fst x, option_map (patch (N.to_nat o) (unhex p)) (snd x))) fs
   | MDrop f => upd (N.to_nat f) (fun x => (fst x, None)) fs
+  | MFill f o n v => upd (N.to_nat f) (fun x => (fst x, option_map (patch (N.to_nat o) (repeat v (N.to_nat n))) (snd x))) fs
+  | MAppend f n v => upd (N.to_nat f) (fun x => (fst x, option_map (fun d => d ++ repeat v (N.to_nat n)) (snd x))) fs
   end.
 Definition to_store (fs : list (bytes * option bytes)) : list (bytes * bytes) :=
   flat_map (fun x => match snd x with Some d => [(fst x, d)] | None => [] end) fs.
@@ -111,6 +119,33 @@ Definition check_probe (k : case) (p : probe) : bool :=
       match recover_after crc32 (deser_ok_of k) (mutated k ms) T, r with
       | Ok es, Some idx => list_eqb (map (fun e => payload_index (k_ents k) 0 (e_data e)) es) idx
       | Err _, None => true
+      | _, _ => false
+      end
+  | PReader ms f T r =>
+      match nthN f (fold_left mutate1 ms (base k)) with
+      | Some (_, Some img) =>
+          match wal_read crc32 img, r with
+          | Ok (s, es), Some (s', all, after) =>
+              (s =? s') && entries_eqb es (map (rent_entry k) all) &&
+              entries_eqb (filter (fun e => T <=? e_ts e) es) (map (rent_entry k) after)
+          | Err _, None => true
+          | _, _ => false
+          end
+      | _ => match r with None => true | _ => false end
+      end
+  | PRestart ms extra r =>
+      let st := mutated k ms in
+      let st1 :=
+        match extra with
+        | None => st
+        | Some ei =>
+            match nthN ei (k_ents k) with
+            | Some e => let s := max_seq st + 1 in st ++ [(wal_file_name s, file_image s [ent_entry e])]
+            | None => st
+            end
+        end in
+      match recover_all crc32 st1, r with
+      | Ok es, Some rs => entries_eqb es (map (rent_entry k) rs)
       | _, _ => false
       end
   | PTrunc ms extra T r =>
